@@ -59,6 +59,16 @@ func failoverPolicy(typeName string) pw.Policy {
 					}
 				}
 			}
+			// axiom (d): the key-lock table holds non-nil entries only (R01.2 checks that what is inserted is a fresh &kl{…})
+			for _, ev := range f.Events() {
+				if ev.Kind == pw.EvMapLookup && isKeyLocksMap(ev) && len(ev.Results) == 2 {
+					ok, okKnown := f.Truth(ev.Results[1])
+					n, nKnown := f.Nil(ev.Results[0])
+					if okKnown && ok && nKnown && n {
+						return false
+					}
+				}
+			}
 			// axiom (c): the failure cache only ever holds non-nil errors (R05.3 checks the writer side).
 			for _, ev := range f.Events() {
 				if ev.Kind == pw.EvCall && ev.Role == "ErrorsRead" && len(ev.Results) == 2 {
